@@ -23,6 +23,7 @@ class _Base:
         self.mosaik = None
         self.sid = None
         self.n = 0
+        self.cfg = None
 
     def create(self, num, model, **params):
         CALLS.append((self.sid, "create", (num, model), dict(params)))
@@ -37,6 +38,9 @@ class _Base:
 
     def _step(self, time, inputs):
         self.n += 1
+        f = (self.cfg or {}).get("raise_at")
+        if f and f["step"] == self.n - 1:
+            raise {"ValueError": ValueError, "TypeError": TypeError, "KeyError": KeyError}[f["exc"]]("injected failure in old simulator")
         return time + 1
 
 
@@ -46,6 +50,7 @@ class V3Sig(_Base):
     def init(self, sid, time_resolution=None, cfg=None, **kw):
         self.sid = sid
         CALLS.append((sid, "init", (sid,), {"time_resolution": time_resolution, **kw}))
+        self.cfg = cfg
         self.meta = _meta(cfg or {})
         return self.meta
 
@@ -63,6 +68,7 @@ class V2Sig(_Base):
     def init(self, sid, cfg=None, **kw):
         self.sid = sid
         CALLS.append((sid, "init", (sid,), dict(kw)))
+        self.cfg = cfg
         self.meta = _meta(cfg or {})
         return self.meta
 
@@ -80,6 +86,7 @@ class V2SigStrict(V2Sig):
     def init(self, sid, cfg=None):  # type: ignore[override]
         self.sid = sid
         CALLS.append((sid, "init", (sid,), {}))
+        self.cfg = cfg
         self.meta = _meta(cfg or {})
         return self.meta
 
